@@ -525,6 +525,11 @@ theorem invF_step {s s' : St} (a : Actor) (h : InvF s) (hs : step s a = some s')
     split at hs
     · cases hs; exact invF_peer h q exc v
     · cases hs
+  | peerDup q exc v =>
+    simp only [step] at hs
+    split at hs
+    · cases hs; exact invF_peer h q exc v
+    · cases hs
   | peerEof =>
     simp only [step] at hs
     split at hs
